@@ -25,6 +25,7 @@ type Config struct {
 	pipeTimeoutMS  int
 	crossSolver    string
 	prefer         string
+	stubs          map[string]*ssa.Function
 	tier           string
 }
 
@@ -203,6 +204,12 @@ func (in *Interp) runInit(fn *ssa.Function) {
 // ---------------------------------------------------------------- function calls
 
 func (in *Interp) callFunction(fn *ssa.Function, args []Value, free []Value) Value {
+	if in.cfg.stubs != nil {
+		if st, ok := in.cfg.stubs[fnKey(fn)]; ok && st != fn {
+			in.cs.ModelsHit["stub:"+fnKey(fn)]++
+			return in.callFunction(st, args, nil)
+		}
+	}
 	if m := in.lookupModel(fn); m != nil {
 		in.cs.ModelsHit[fnKey(fn)]++
 		return m(in, fn, args)
